@@ -429,7 +429,7 @@ pub fn run_pipe(s: &Script, plain: &[u8], ops: &[Vec<i64>], st: &mut Stats) -> R
 }
 
 pub fn exec(s: &Script, st: &mut Stats) -> Result<RunInfo, Violation> {
-    let count = s.c("phase_count");
+    let count = s.c("phase_count").min(512);
     if count > 0 {
         // phase sweep: the same data behind r zero bytes for every r in [phase_from, phase_from + count):
         // a long run costs the compressor almost no LZ codes, so r shifts the instant at which the LZ code
@@ -442,7 +442,12 @@ pub fn exec(s: &Script, st: &mut Stats) -> Result<RunInfo, Violation> {
         let mut plain: Vec<u8> = Vec::with_capacity(from + count as usize + body.len());
         for r in from..from + count as usize {
             plain.clear();
-            plain.resize(r, s.c("phase_byte") as u8);
+            if s.c("phase_noise") != 0 {
+                let pre = s.blob("phase_prefix");
+                plain.extend_from_slice(&pre[..r.min(pre.len())]);
+            } else {
+                plain.resize(r, s.c("phase_byte") as u8);
+            }
             plain.extend_from_slice(body);
             let ri = exec_one(s, &plain, st).map_err(|mut v| {
                 v.detail = format!("[phase sweep, prefix length {}] {}", r, v.detail);
@@ -455,7 +460,7 @@ pub fn exec(s: &Script, st: &mut Stats) -> Result<RunInfo, Violation> {
         return Ok(RunInfo { hash: hh.0, nontrivial });
     }
     let fsw = s.c("flush_sweep");
-    if fsw > 0 {
+    if fsw > 0 && s.blob("plain").len() <= 4096 {
         // a flush of mode `fsw` (or a bare call boundary when fsw = 8) after every single input position of a
         // short input, constant grant for all calls
         let plain = s.blob("plain");
